@@ -103,12 +103,29 @@ func runSignVar(sc M) {
 				}
 				return nil
 			}
-			a, m, err := signature.SignEFIVariable(v, rawDB(payload), signer, cert)
+			var pl efivar.Marshallable = rawDB(payload)
+			var pdb *signature.SignatureDatabase
+			if sc["mutate_after"] == true {
+				// the caller keeps using (and changing) the payload object after the update has been produced
+				if db, derr := signature.ReadSignatureDatabase(bytes.NewReader(payload)); derr == nil {
+					pdb = &db
+					pl = pdb
+				}
+			}
+			a, m, err := signature.SignEFIVariable(v, pl, signer, cert)
 			if err != nil {
 				return err
 			}
+			if pdb != nil {
+				sigdbInit()
+				pdb.Append(guidOf(typeGUIDWire, "sha256"), guidOf(ownerGUIDWire, "o3"), sigdbData["h2"].bytes)
+				a.Time.Year++ // and the returned descriptor object
+			}
 			obj = a
 			out = m.Bytes()
+			if pdb != nil {
+				obj = nil
+			}
 			return nil
 		})
 		t1 := time.Now().UTC().Unix()
